@@ -257,6 +257,15 @@ func (t *SessionTeardown) cleanup(session *Session, cause TerminateCause) error 
 	t.mu.Lock()
 	defer t.mu.Unlock()
 
+	// A session is cleaned up once. Another path may have ended it while this
+	// one was on its way here (the client's PADT during a server-initiated
+	// termination, an administrative termination during an idle timeout): the
+	// session has then left the session table and nothing it held is left to
+	// release - in particular no second Accounting-Stop may be sent.
+	if t.sessions != nil && t.sessions.GetSession(session.ID) != session {
+		return nil
+	}
+
 	ctx, cancel := context.WithTimeout(context.Background(), t.config.CleanupTimeout)
 	defer cancel()
 
